@@ -1046,6 +1046,7 @@ fn fold_info(b: &Built, st: &Stats, single_glob_rule: bool) -> Info {
         info.class_if(st.impl_strict[k] > 0, IMPL_READING[k][0]);
         info.class_if(st.impl_permissive[k] > 0, IMPL_READING[k][1]);
     }
+    info.class_if(b.specs.is_empty(), "empty_set");
     info.class_if(st.model_checked > 0, "model_decided");
     info.class_if(st.model_checked_invalid_bytes > 0, "model_decided_on_never_valid_utf8_bytes_under_?_or_negated_class");
     info.class_if(st.model_match > 0, "model_says_match");
@@ -1078,7 +1079,7 @@ fn fold_info(b: &Built, st: &Stats, single_glob_rule: bool) -> Info {
 }
 
 fn check_with(case: &Case, single_glob_rule: bool) -> Verdict {
-    if case.globs.is_empty() {
+    if case.globs.is_empty() && single_glob_rule {
         return Verdict::Reject("no globs");
     }
     let b = match build(&case.globs) {
@@ -1637,13 +1638,15 @@ pub fn gen_pairs_case(t: &mut Tape) -> Case {
 
 pub fn gen_set_case(t: &mut Tape) -> Case {
     let rich = t.chance(2, 3);
-    let globs = gen_set(t, rich);
+    // (the set of no globs is a combination of globs too: it matches nothing, and its *_into
+    // entry points must still clear the vector they are given)
+    let globs = if t.chance(1, 25) { vec![] } else { gen_set(t, rich) };
     let n = 1 + t.below(6);
     let paths = (0..n)
         .map(|_| {
-            let aimed = !t.chance(1, 5);
-            let g = &globs[t.below(globs.len())];
-            Bs(gen_path_for(t, if aimed { Some(g) } else { None }, rich))
+            let aimed = !globs.is_empty() && !t.chance(1, 5);
+            let g = if aimed { Some(&globs[t.below(globs.len())]) } else { None };
+            Bs(gen_path_for(t, g, rich))
         })
         .collect();
     Case { globs, paths }
